@@ -61,7 +61,7 @@ func main() {
 
 func runConfig(c *vf.Ctx, cs cfgSpec, s int, nblocks int) {
 	name := fmt.Sprintf("%s-s%d", cs.name, s)
-	opts := rig.WorldOpts{Public: cs.public, NAccts: 8}
+	opts := rig.WorldOpts{Public: cs.public, NAccts: 12}
 	w := rig.NewWorld(name, c.Scratch(), opts)
 	var cb *rig.Acct
 	switch {
@@ -111,16 +111,16 @@ func runConfig(c *vf.Ctx, cs cfgSpec, s int, nblocks int) {
 		cands := g.Block(no, ntx)
 		if cs.vault && no == 1 {
 			// first tx: fund aergo.vault
-			sp := rig.TxSpec{Type: 4, From: w.Accts[7], To: []byte("aergo.vault"), Amount: new(big.Int).Mul(big.NewInt(1000), rig.Aergo),
+			sp := rig.TxSpec{Type: 4, From: w.Accts[11], To: []byte("aergo.vault"), Amount: new(big.Int).Mul(big.NewInt(1000), rig.Aergo),
 				Nonce: 1, ChainID: w.CIDHash(no), GasPrice: big.NewInt(50000000000)}
 			// account 7 is excluded from this block's generated txs by regenerating with it last
 			var filtered []*rig.GTx
 			for _, x := range cands {
-				if x.From != 7 {
+				if x.From != 11 {
 					filtered = append(filtered, x)
 				}
 			}
-			cands = append([]*rig.GTx{{Desc: "fund-vault a7", Kind: "xfer", From: 7, Tx: sp.Build(), Expect: "ok"}}, filtered...)
+			cands = append([]*rig.GTx{{Desc: "fund-vault a11", Kind: "xfer", From: 11, Tx: sp.Build(), Expect: "ok"}}, filtered...)
 		}
 		var txs [][]byte
 		var descs []string
@@ -160,6 +160,19 @@ func runConfig(c *vf.Ctx, cs cfgSpec, s int, nblocks int) {
 			fees.Add(fees, new(big.Int).SetBytes(rc.Fee))
 		}
 		g.Applied(cands, rsp.Included, statuses)
+		{
+			inc := map[string]int{}
+			for i, h := range rsp.Included {
+				inc[string(h)] = i
+			}
+			for _, x := range cands {
+				if i, ok := inc[string(x.Tx.Hash)]; ok {
+					c.Count("kind/"+x.Kind+"/"+statuses[i], 1)
+				} else {
+					c.Count("kind/"+x.Kind+"/skipped", 1)
+				}
+			}
+		}
 		cd := caseDesc{Config: name, Block: no, Version: w.Version(no), Txs: descs, Statuses: statuses}
 		for _, st := range statuses {
 			c.Count("receipt_"+st, 1)
